@@ -87,18 +87,18 @@ type Interp struct {
 	initDone    map[*ssa.Package]bool
 
 	// per-path state
-	pc        []*Term
-	decisions []decision
-	dpos      int
-	tape      []tapeEntry
-	observes  []observeEntry
-	steps     int
-	onceDone  map[string]bool
+	pc         []*Term
+	decisions  []decision
+	dpos       int
+	tape       []tapeEntry
+	observes   []observeEntry
+	steps      int
+	onceDone   map[string]bool
 	atomicVals map[string]Value // contents of sync/atomic.Value objects (per path)
-	noFork    bool
-	depth     int
-	reached   map[string]bool
-	events    []string
+	noFork     bool
+	depth      int
+	reached    map[string]bool
+	events     []string
 
 	// accumulated results
 	res *HarnessResult
